@@ -105,13 +105,34 @@ def _digest(fnode):
     return hashlib.sha1(ast.dump(fnode).encode()).hexdigest()[:16]
 
 
+def shapes(fnode):
+    """rename-invariant texts of the function's own statements (every local blanked)"""
+    import copy
+    locs, params = _own_locals(fnode)
+    out = []
+    for u in _units(fnode):
+        t = _Blank('\0none', locs).visit(copy.deepcopy(u))
+        try:
+            out.append(ast.unparse(ast.fix_missing_locations(t)))
+        except Exception:
+            out.append(ast.dump(t))
+    return sorted(out)
+
+
+def shape_distance(a, b):
+    """(number of statements by which two shape multisets differ, Jaccard similarity of the multisets)"""
+    from collections import Counter
+    ca, cb = Counter(a), Counter(b)
+    d = sum(((ca - cb) + (cb - ca)).values())
+    u = sum((ca | cb).values())
+    return d, (round(sum((ca & cb).values()) / u, 3) if u else 1.0)
+
+
 def build_hints(prog):
     h = {}
     for m in prog.modules.values():
         for q, f in m.functions.items():
-            s = signatures(f.node)
-            if s:
-                h[m.relpath + '::' + q] = {'digest': _digest(f.node), 'sig': s}
+            h[m.relpath + '::' + q] = {'digest': _digest(f.node), 'sig': signatures(f.node), 'shapes': shapes(f.node)}
     return h
 
 
@@ -260,6 +281,248 @@ def _inline_new_temporaries(fnode, known):
     return done
 
 
+# ---------------------------------------------------------------------------------------------------------------------
+# helpers introduced by an extract-function refactoring are expanded at their call sites
+
+_HCOUNT = [0]
+
+
+def _tail_returns_only(stmts):
+    """True if every Return of the statement list is in tail position (never inside a loop / try / with), so that the body can
+    be spliced with `return E` turned into an assignment."""
+    def ok(block, tail):
+        for i, st in enumerate(block):
+            last = tail and i == len(block) - 1
+            if isinstance(st, ast.Return):
+                if not last:
+                    return False
+            elif isinstance(st, ast.If):
+                if not ok(st.body, last) or not ok(st.orelse, last):
+                    return False
+            elif isinstance(st, (ast.For, ast.While, ast.With, ast.Try, ast.AsyncFor, ast.AsyncWith)):
+                if any(isinstance(x, ast.Return) for x in ast.walk(st)):
+                    return False
+            elif isinstance(st, (ast.FunctionDef, ast.AsyncFunctionDef, ast.ClassDef, ast.Global, ast.Nonlocal)):
+                return False
+            elif any(isinstance(x, (ast.Yield, ast.YieldFrom, ast.Await)) for x in ast.walk(st)):
+                return False
+        return True
+    return ok(stmts, True)
+
+
+def _all_paths_return(block):
+    if not block:
+        return False
+    last = block[-1]
+    if isinstance(last, ast.Return):
+        return True
+    if isinstance(last, ast.If):
+        return _all_paths_return(last.body) and _all_paths_return(last.orelse)
+    if isinstance(last, ast.Raise):
+        return True
+    return False
+
+
+def _bind(hnode, call):
+    """{param: argument expression} or None when the call cannot be matched to the signature"""
+    a = hnode.args
+    if a.vararg or a.kwarg or a.posonlyargs and False:
+        return None
+    if any(isinstance(x, ast.Starred) for x in call.args) or any(k.arg is None for k in call.keywords):
+        return None
+    pos = [x.arg for x in a.posonlyargs + a.args]
+    kwo = [x.arg for x in a.kwonlyargs]
+    defaults = {}
+    for pn, d in zip(pos[len(pos) - len(a.defaults):], a.defaults):
+        defaults[pn] = d
+    for pn, d in zip(kwo, a.kw_defaults):
+        if d is not None:
+            defaults[pn] = d
+    if len(call.args) > len(pos):
+        return None
+    out = {}
+    for pn, arg in zip(pos, call.args):
+        out[pn] = arg
+    for k in call.keywords:
+        if k.arg in out or k.arg not in pos + kwo:
+            return None
+        out[k.arg] = k.value
+    for pn in pos + kwo:
+        if pn not in out:
+            if pn not in defaults:
+                return None
+            out[pn] = defaults[pn]
+    return out
+
+
+class _Subst(ast.NodeTransformer):
+    def __init__(self, mapping):
+        self.mapping = mapping
+
+    def visit_Name(self, n):
+        if n.id in self.mapping:
+            rep = self.mapping[n.id]
+            if isinstance(rep, str):
+                return ast.copy_location(ast.Name(id=rep, ctx=n.ctx), n)
+            if isinstance(n.ctx, ast.Load):
+                import copy
+                return ast.copy_location(copy.deepcopy(rep), n)
+        return n
+
+
+def _expand_call(hnode, call, mode, target_stmt):
+    """statements + result expression of one expanded call.  mode: 'assign' (target_stmt = Assign whose value is the call),
+    'expr' (bare call), 'return', or 'value' (call inside a larger expression: only helpers whose body is straight-line)."""
+    import copy
+    binding = _bind(hnode, call)
+    if binding is None:
+        return None
+    body = [st for st in hnode.body if not (isinstance(st, ast.Expr) and isinstance(st.value, ast.Constant) and isinstance(st.value.value, str))]
+    if not body or not _tail_returns_only(body):
+        return None
+    straight = all(isinstance(st, (ast.Assign, ast.AugAssign, ast.Expr, ast.Return, ast.AnnAssign)) for st in body)
+    if mode == 'value' and not (straight and isinstance(body[-1], ast.Return) and body[-1].value is not None):
+        return None
+    if mode in ('assign', 'value', 'return') and not _all_paths_return(body):
+        return None
+    _HCOUNT[0] += 1
+    tag = '_h%d_' % _HCOUNT[0]
+    locs, params = _own_locals(hnode)
+    stored_params = {n.id for n in walk_no_nested(hnode) if isinstance(n, ast.Name) and isinstance(n.ctx, (ast.Store, ast.Del)) and n.id in params}
+    mapping = {v: tag + v for v in locs}
+    pre = []
+    # `T = helper(T, ...)` where the helper rebinds that parameter and returns it on every path: the parameter *is* T
+    same_name = None
+    if mode == 'assign' and len(target_stmt.targets) == 1 and isinstance(target_stmt.targets[0], ast.Name):
+        tname = target_stmt.targets[0].id
+        rets = [x for x in ast.walk(hnode) if isinstance(x, ast.Return)]
+        for pn, arg in binding.items():
+            if isinstance(arg, ast.Name) and arg.id == tname and rets and all(isinstance(r.value, ast.Name) and r.value.id == pn for r in rets):
+                same_name = pn
+    for pn, arg in binding.items():
+        simple = not any(isinstance(x, (ast.Call, ast.Lambda, ast.IfExp, ast.BoolOp, ast.ListComp, ast.GeneratorExp)) for x in ast.walk(arg))
+        if pn == same_name:
+            mapping[pn] = arg.id
+        elif simple and pn not in stored_params:
+            mapping[pn] = arg
+        else:
+            mapping[pn] = tag + pn
+            pre.append(ast.Assign(targets=[ast.Name(id=tag + pn, ctx=ast.Store())], value=copy.deepcopy(arg)))
+    new_body = [_Subst(mapping).visit(copy.deepcopy(st)) for st in body]
+
+    def retarget(block):
+        out = []
+        for st in block:
+            if isinstance(st, ast.Return):
+                v = st.value if st.value is not None else ast.Constant(value=None)
+                if mode == 'assign':
+                    if not (same_name is not None and isinstance(v, ast.Name) and v.id == target_stmt.targets[0].id):
+                        out.append(ast.Assign(targets=copy.deepcopy(target_stmt.targets), value=v))
+                elif mode == 'return':
+                    out.append(ast.Return(value=v))
+                elif mode == 'expr':
+                    pass
+                else:
+                    out.append(('VALUE', v))
+            elif isinstance(st, ast.If):
+                st.body = retarget(st.body) or [ast.Pass()]
+                st.orelse = retarget(st.orelse)
+                out.append(st)
+            else:
+                out.append(st)
+        return out
+    stmts = retarget(new_body)
+    value = None
+    if mode == 'value':
+        value = stmts[-1][1]
+        stmts = stmts[:-1]
+    stmts = [x for x in pre + stmts if not isinstance(x, ast.Pass)]
+    for x in stmts:
+        ast.copy_location(x, target_stmt)
+        ast.fix_missing_locations(x)
+    return stmts, value
+
+
+def _inline_new_helpers(fnode, helpers):
+    """expand calls `h(...)` (h in helpers: {name: FunctionDef}) inside fnode; returns names of expanded helpers"""
+    done = []
+    for _round in range(4):
+        changed = False
+        for owner in [fnode] + [x for x in walk_no_nested(fnode) if isinstance(x, (ast.If, ast.For, ast.While, ast.With, ast.Try))]:
+            for field in ('body', 'orelse', 'finalbody'):
+                blk = getattr(owner, field, None)
+                if not isinstance(blk, list):
+                    continue
+                i = 0
+                while i < len(blk):
+                    st = blk[i]
+                    rep = None
+                    hname = None
+
+                    def is_h(e):
+                        return isinstance(e, ast.Call) and isinstance(e.func, ast.Name) and e.func.id in helpers and e.func.id != fnode.name
+                    if isinstance(st, ast.Assign) and is_h(st.value):
+                        hname = st.value.func.id
+                        r = _expand_call(helpers[hname], st.value, 'assign', st)
+                        rep = r[0] if r else None
+                    elif isinstance(st, ast.Expr) and is_h(st.value):
+                        hname = st.value.func.id
+                        r = _expand_call(helpers[hname], st.value, 'expr', st)
+                        rep = r[0] if r else None
+                    elif isinstance(st, ast.Return) and st.value is not None and is_h(st.value):
+                        hname = st.value.func.id
+                        r = _expand_call(helpers[hname], st.value, 'return', st)
+                        rep = r[0] if r else None
+                    if rep is None and isinstance(st, (ast.Assign, ast.AugAssign, ast.Expr, ast.Return, ast.If, ast.AnnAssign)):
+                        # calls nested in the statement's own expressions (for If: its test only; not under lazy operators)
+                        exprs = [st.test] if isinstance(st, ast.If) else [c for c in ast.iter_child_nodes(st) if isinstance(c, ast.expr)]
+                        lazy = set()
+                        for e in exprs:
+                            for x in ast.walk(e):
+                                if isinstance(x, ast.BoolOp):
+                                    for v in x.values[1:]:
+                                        lazy |= {id(y) for y in ast.walk(v)}
+                                elif isinstance(x, ast.IfExp):
+                                    lazy |= {id(y) for y in ast.walk(x.body)} | {id(y) for y in ast.walk(x.orelse)}
+                                elif isinstance(x, (ast.Lambda, ast.ListComp, ast.SetComp, ast.DictComp, ast.GeneratorExp)):
+                                    lazy |= {id(y) for y in ast.walk(x)} - {id(x)}
+                        cand = None
+                        for e in exprs:
+                            for x in ast.walk(e):
+                                if is_h(x) and id(x) not in lazy:
+                                    cand = x
+                                    break
+                            if cand is not None:
+                                break
+                        if cand is not None:
+                            r = _expand_call(helpers[cand.func.id], cand, 'value', st)
+                            if r:
+                                pre, val = r
+
+                                class _R(ast.NodeTransformer):
+                                    def visit_Call(self, n):
+                                        if n is cand:
+                                            return ast.copy_location(val, n)
+                                        return self.generic_visit(n)
+                                _R().visit(st)
+                                ast.fix_missing_locations(st)
+                                blk[i:i] = pre
+                                done.append(cand.func.id)
+                                changed = True
+                                i += len(pre)
+                                continue
+                    if rep is not None:
+                        blk[i:i + 1] = rep if rep else [ast.copy_location(ast.Pass(), st)]
+                        done.append(hname)
+                        changed = True
+                        i += max(len(rep), 1)
+                        continue
+                    i += 1
+        if not changed:
+            break
+    return done
+
+
 def normalise(prog, hints=None):
     """Rename locals in place (outer functions first).  Returns {function key: {old: new}} for the report."""
     if hints is None:
@@ -268,7 +531,11 @@ def normalise(prog, hints=None):
         with open(HINTS) as f:
             hints = json.load(f)
     done = {}
+    dist = {}
+    prog.restructured = dist      # {function key: statements differing from the shape the rules were written against}
     for m in prog.modules.values():
+        # module-level functions the reference tree does not have (extract-function refactorings)
+        helpers = {q: f.node for q, f in m.functions.items() if '.' not in q and (m.relpath + '::' + q) not in hints and f.cls is None}
         for q in sorted(m.functions, key=lambda x: x.count('.')):
             f = m.functions[q]
             key = m.relpath + '::' + q
@@ -276,18 +543,30 @@ def normalise(prog, hints=None):
                 continue
             if hints[key].get('digest') == _digest(f.node):
                 continue            # function unchanged since the hints were taken: identity renaming
-            cur = signatures(f.node)
-            if not cur:
-                continue
-            ren = _mapping(cur, hints[key]['sig'])
-            if ren:
-                _apply(f.node, ren)
-                done[key] = ren
+            from .spelling import canonical, numpy_alias
+            if not hasattr(m, '_np_alias'):
+                m._np_alias = numpy_alias(m.tree)
+            if helpers:
+                exp = _inline_new_helpers(f.node, helpers)
+                if exp:
+                    # expansions can expose idioms the load-time spelling pass could not see (e.g. `helper(x) & mask`)
+                    canonical(f.node, m._np_alias)
+                    done.setdefault(key, {}).update({h: '<expanded>' for h in exp})
             known = set(hints[key]['sig'])
-            inl = _inline_new_temporaries(f.node, known)
-            if inl:
-                done.setdefault(key, {})
-                done[key].update({k: '<inlined>' for k in inl})
+            for _round in range(3):
+                cur = signatures(f.node)
+                ren = _mapping(cur, hints[key]['sig']) if cur and hints[key]['sig'] else {}
+                if ren:
+                    _apply(f.node, ren)
+                    done.setdefault(key, {}).update(ren)
+                inl = _inline_new_temporaries(f.node, known)
+                if inl:
+                    done.setdefault(key, {}).update({k: '<inlined>' for k in inl})
+                    canonical(f.node, m._np_alias)
+                if not ren and not inl:
+                    break
+            if 'shapes' in hints[key]:
+                dist[key] = shape_distance(shapes(f.node), hints[key]['shapes'])
     if done:
         from . import loader
         loader.invalidate_caches()
